@@ -22,3 +22,8 @@ claim("C07", "DESIGN.md 5 C07",
  "Seeded search over generated message sequences (every length-nibble class, token lengths 0-8, ordinary/response/signalling codes, optionally one oversize frame incl. 32-bit extended-length boundary values) x segmentations of the byte stream chosen by the tape (single bytes, cuts inside headers, many frames per read) x read-buffer sizes, against the real tcp.Client + tcp/client.Session + net.Conn over a simulated stream (plain and TLS shim). The handler log is compared with the sent sequence; for an oversize frame the body is withheld and the connection must already be closed. Evidence, not proof.",
  "Trusts the harness's own RFC 8323 codec; frames in the grey zone between 'options+payload <= max' and 'whole frame <= max' are not generated; messages supplied in the same read as the oversize header may die with the connection (both outcomes accepted, run marked racy).",
  "deterministic simulation: seeded segmentation/sequence search with exact-delivery oracle on the handler log")
+
+claim("C03", "DESIGN.md 5 C03, A.1",
+ "Seeded search over caller counts, request mixes (Get/Delete/Do, CON and NON, caller-chosen and re-used tokens), answer orders/delays/duplications, piggybacked vs separate answers, forged answers, stream segmentation and park points around token registration, on one real connection per run over UDP (real Session + UDPConn), DTLS (real dtls Session over an ideal record layer), TCP and TLS shim (real tcp.Client), block-wise on/off, limiter off/1/2. Every return is checked for own token and own content; colliding tokens are judged on the wire; answered requests must complete. Evidence, not proof.",
+ "Trusts the harness codec and scripted peer; pion/dtls and crypto/tls are replaced by ideal record layers in this check; separate responses are emitted only after their ACK (C06 owns the other order); a token is re-used at most once per run and network duplicates of answers carrying a re-used token are dropped (they are indistinguishable from the new answer).",
+ "deterministic simulation: seeded schedule/fault search with token-demultiplexing oracle over call returns and wire log")
